@@ -552,7 +552,13 @@ Inductive astate :=
 | ACut (c : call) (j : N) (snap : list ev) (todo : list plan) (made : list created)   (* read half of the next cut *)
 | AWrite (c : call) (j : N) (snap : list ev) (p : plan) (v : summ) (todo : list plan) (made : list created)  (* append checkpoint *)
 | AEnd (c : call) (j status : N) (made : list created) (err : option N)   (* append job_ended *)
+| AMsgStart (ms : list (N * N))                                (* a client appending messages (actor, content) meanwhile *)
+| AMsgs (ms : list (N * N))                                    (* append the next message *)
 | ADone (resp : list N).
+
+(* what an actor is asked to do *)
+Inductive aspec := SCall (c : call) | SMsgs (ms : list (N * N)).
+Definition start_of (x : aspec) : astate := match x with SCall c => AStart c | SMsgs ms => AMsgStart ms end.
 
 Definition enc_call_resp (decision : N) (job : option N) (made : list created) (err : option N) : list N :=
   [decision] ++ enc_opt job ++ enc_createds made ++ enc_opt err.
@@ -610,11 +616,16 @@ Definition astep (K : consts) (s : st) (a : astate) : st * astate :=
     (append s (BJobEnded j status made),
      ADone (enc_call_resp (match err with None => 4 | Some _ => 5 end + (if c_sched c then 0 else 8)) (Some j)
                           (match err with None => made | Some _ => [] end) err))
+  | AMsgStart ms => (s, match ms with [] => ADone [] | _ => AMsgs ms end)
+  | AMsgs ms => match ms with
+                | [] => (s, ADone [])
+                | (a, c) :: rest => (append s (BMsg a c), match rest with [] => ADone [] | _ => AMsgs rest end)
+                end
   | ADone r => (s, ADone r)
   end.
 
 Definition is_append (a : astate) : bool :=
-  match a with ASkip _ _ _ | ASpawn _ _ _ _ | ADecide _ _ _ _ | AWrite _ _ _ _ _ _ _ | AEnd _ _ _ _ _ => true | _ => false end.
+  match a with ASkip _ _ _ | ASpawn _ _ _ _ | ADecide _ _ _ _ | AWrite _ _ _ _ _ _ _ | AEnd _ _ _ _ _ | AMsgs _ => true | _ => false end.
 Definition is_done (a : astate) : bool := match a with ADone _ => true | _ => false end.
 
 (* read steps up to the next append (what an actor does between two parks at the seq mutex) *)
@@ -646,13 +657,13 @@ Fixpoint run_sched (K : consts) (s : st) (actors : list astate) (schedule : list
 Definition enc_actor (a : astate) : list N := match a with ADone r => 1 :: r | _ => [0] end.
 
 (* a concurrent case: sequential prefix, then the calls driven by a schedule of quanta *)
-Definition observe_conc (K : consts) (prefix : list op) (calls : list call) (schedule : list N) : list N :=
+Definition observe_conc (K : consts) (prefix : list op) (calls : list aspec) (schedule : list N) : list N :=
   let '(s0, _) := run_ops K st0 prefix [] in
-  let '(s, actors) := run_sched K s0 (map AStart calls) schedule in
+  let '(s, actors) := run_sched K s0 (map start_of calls) schedule in
   concat (map enc_actor actors)
   ++ nlen (log s) :: concat (map enc_ev (log s)) ++ nlen (arts s) :: concat (map enc_summ (arts s)).
 
-Record ccase := { cc_consts : consts; cc_prefix : list op; cc_calls : list call; cc_schedule : list N; cc_expect : list N }.
+Record ccase := { cc_consts : consts; cc_prefix : list op; cc_calls : list aspec; cc_schedule : list N; cc_expect : list N }.
 Definition check_ccase (c : ccase) : bool :=
   lN_eqb (observe_conc (cc_consts c) (cc_prefix c) (cc_calls c) (cc_schedule c)) (cc_expect c).
 Definition model_cobs (c : ccase) : list N := observe_conc (cc_consts c) (cc_prefix c) (cc_calls c) (cc_schedule c).
